@@ -1,24 +1,34 @@
 import Proofs.XfrFlat
+import Proofs.XfrZone
 /-!
 # Specification vocabulary of C13: zone versions, the AXFR / IXFR streams a server sends for them,
 divisions of a record stream into messages, and the reduction of a chunked run to the flat run.
 -/
 namespace Model.Xfr
 
-/-- A zone version as a server holds it: the apex SOA rdata and the other rrsets. -/
+/-- an apex SOA: its rdata and its TTL -/
+structure Soa where
+  rdata : Rdata
+  ttl : Nat
+
+/-- A zone version as a server holds it: the apex SOA and the other rrsets. -/
 structure Version where
-  soa : Rdata
+  soa : Soa
   body : List RRset
 
-/-- the apex SOA rrset of a version -/
-def soaRR (o : Name) (d : Rdata) : RRset := ⟨o, soaType, [d]⟩
+/-- the apex SOA rrset -/
+def soaRR (o : Name) (s : Soa) : RRset := ⟨o, soaType, s.ttl, [s.rdata]⟩
+
+/-- the apex SOA record -/
+def soaRec (o : Name) (s : Soa) : RR := ⟨o, soaType, s.rdata, s.ttl⟩
 
 /-- the content of a version as a zone -/
-def zoneOf (o : Name) (v : Version) : Zone := recsOfAll v.body ++ [⟨o, soaType, v.soa⟩]
+def zoneOf (o : Name) (v : Version) : Zone := recsOfAll v.body ++ [soaRec o v.soa]
 
-/-- rrsets a server may send in the body of a transfer of the zone at `o`: in the zone, and not of type
-SOA (the apex SOA travels separately; a zone has no other SOA) -/
-def BodyOk (o : Name) (l : List RRset) : Prop := ∀ rs ∈ l, rs.rdtype ≠ soaType ∧ isSubdomain rs.owner o = true
+/-- rrsets a server may send in the body of a transfer of the zone at `o`: in the zone, not empty, and
+not of type SOA (the apex SOA travels separately; a zone has no other SOA) -/
+def BodyOk (o : Name) (l : List RRset) : Prop :=
+  ∀ rs ∈ l, rs.rdtype ≠ soaType ∧ isSubdomain rs.owner o = true ∧ rs.rdatas ≠ []
 
 /-- `AXFR` response for version `v`: SOA, every other rrset, SOA again -/
 def axfrStream (o : Name) (v : Version) : List RRset := soaRR o v.soa :: (v.body ++ [soaRR o v.soa])
@@ -26,22 +36,22 @@ def axfrStream (o : Name) (v : Version) : List RRset := soaRR o v.soa :: (v.body
 /-- one incremental step: the records removed, the new SOA, the records added -/
 structure Step where
   dels : List RR
-  soa : Rdata
+  soa : Soa
   adds : List RR
 
 /-- the difference sequences of an IXFR response, starting from the version whose SOA is `cur` -/
-def ixfrSteps (o : Name) (cur : Rdata) : List Step → List RRset
+def ixfrSteps (o : Name) (cur : Soa) : List Step → List RRset
   | [] => []
   | st :: rest =>
     soaRR o cur :: (st.dels.map single ++ (soaRR o st.soa :: (st.adds.map single ++ ixfrSteps o st.soa rest)))
 
 /-- the SOA of the last step (the server's current SOA) -/
-def lastSoa (cur : Rdata) : List Step → Rdata
+def lastSoa (cur : Soa) : List Step → Soa
   | [] => cur
   | st :: rest => lastSoa st.soa rest
 
 /-- `IXFR` response (RFC 1995): current SOA, the difference sequences oldest first, current SOA -/
-def ixfrStream (o : Name) (cur : Rdata) (steps : List Step) : List RRset :=
+def ixfrStream (o : Name) (cur : Soa) (steps : List Step) : List RRset :=
   soaRR o (lastSoa cur steps) :: (ixfrSteps o cur steps ++ [soaRR o (lastSoa cur steps)])
 
 /-- A division of the record stream `recs` into response messages of a transfer with configuration `c`:
